@@ -477,7 +477,7 @@ def _gen_lifecycle_program(rng, tier):
     ops = []
     for _ in range(rng.randint(5, 30)):
         k = rng.choices(["disable", "disable_nohash", "enable", "login", "login_empty", "login_self", "login_wrong", "is_enabled",
-                         "verify_none", "policy_update", "restart", "needs_update"], [6, 2, 5, 4, 2, 2, 2, 3, 2, 1, 1, 1])[0]
+                         "verify_none", "policy_update", "restart", "needs_update", "add_user_scheme"], [6, 2, 5, 4, 2, 2, 2, 3, 2, 1, 1, 1, 0.6])[0]
         op = {"op": k, "user": rng.randrange(len(users))}
         if k in ("disable", "enable") and rng.random() < 0.25:
             op["as_bytes"] = True  # the stored record is handed over as bytes (as read from a file or a database driver)
@@ -487,6 +487,8 @@ def _gen_lifecycle_program(rng, tier):
                 continue
         if k == "restart":
             op["form"] = rng.choice(["dict", "string"])
+        if k == "add_user_scheme":
+            op["scheme"] = rng.choice(["postgres_md5", "oracle10"])
         ops.append(op)
     return {"cfg": {"mode": "lifecycle", "policy": cfg, "disabled": disabled, "users": users, "seed": rng.getrandbits(32)}, "ops": ops}
 
